@@ -44,9 +44,20 @@ pub fn unmarshal_container(
     typ: &signature::Container,
     ctx: &mut UnmarshalContext,
 ) -> UnmarshalResult<params::Container<'static, 'static>> {
+    // messages must not nest containers deeper than the protocol allows. This also bounds the recursion.
+    ctx.enter_container()?;
+    let res = unmarshal_container_contents(typ, ctx);
+    ctx.leave_container();
+    res
+}
+
+fn unmarshal_container_contents(
+    typ: &signature::Container,
+    ctx: &mut UnmarshalContext,
+) -> UnmarshalResult<params::Container<'static, 'static>> {
     let param = match typ {
         signature::Container::Array(elem_sig) => {
-            let bytes_in_array = ctx.read_u32()? as usize;
+            let bytes_in_array = crate::wire::util::check_array_len(ctx.read_u32()?)?;
 
             ctx.align_to(elem_sig.get_alignment())?;
 
@@ -63,7 +74,7 @@ pub fn unmarshal_container(
             })
         }
         signature::Container::Dict(key_sig, val_sig) => {
-            let bytes_in_dict = ctx.read_u32()? as usize;
+            let bytes_in_dict = crate::wire::util::check_array_len(ctx.read_u32()?)?;
 
             ctx.align_to(8)?;
 
